@@ -8,6 +8,7 @@ from .. import prims
 from ..prims import SliceV
 from . import common
 from .c10 import parents, catch_all_try
+from .c20 import ancestors
 
 
 def offset_lo(v, st):
@@ -228,6 +229,31 @@ def check(prog, rep, tier):
                                       'exception (IndexError, struct.error) makes the handler itself raise '
                                       'AttributeError out of the decoder' % src_of(n),
                                 expected='handlers use the exception only via str()/logging', key=key)
+    # the handlers of Update.parse run outside any try: every call in them must be total
+    TOTAL = {'str', 'repr', 'dict', 'list', 'tuple', 'len', 'isinstance', 'bool', 'traceback.format_exc', 'type'}
+    nh = 0
+    for t in [n for n in up.node.body if isinstance(n, ast.Try)]:
+        for h in t.handlers:
+            nh += 1
+            guarded = set()
+            for n in ast.walk(ast.Module(body=h.body, type_ignores=[])):
+                if isinstance(n, ast.Try) and catch_all_try(n):
+                    guarded |= {id(x) for b in n.body for x in ast.walk(b)}
+            for n in ast.walk(ast.Module(body=h.body, type_ignores=[])):
+                if not isinstance(n, ast.Call) or id(n) in guarded:
+                    continue
+                fn_txt = src_of(n.func)
+                if fn_txt in TOTAL or fn_txt.startswith('LOG.'):
+                    continue
+                if fn_txt == 'getattr' and len(n.args) == 3:
+                    continue
+                key = 'handler-call:%s:%s' % (src_of(h.type) if h.type is not None else 'bare', fn_txt)
+                rep.bad('R11.d', key, file=up.file, line=n.lineno, func=up.qualname,
+                        found='the handler for %s calls %s outside any try: if it raises, the exception leaves '
+                              'Update.parse instead of a result object' % (
+                                  src_of(h.type) if h.type is not None else 'everything', src_of(n)),
+                        expected='handlers only log and copy fields of the exception', key=key)
+    rep.floor('R11.d', 'Update.parse handlers', nh, 2)
     # a result object is returned on every path
     rets = [n for n in ast.walk(up.node) if isinstance(n, ast.Return)]
     last = up.node.body[-1]
@@ -352,6 +378,25 @@ def recursion(prog, rep):
                                 v = prog.try_fold(lo, f.module, f.cls) if lo is not None else None
                                 if isinstance(v, int) and v >= 1:
                                     ok = True
+                # inside a loop the siblings must get disjoint windows: a suffix without an upper bound makes
+                # every sibling decode all its followers again (work doubles per sibling)
+                par = parents(f.node)
+                in_loop = any(isinstance(p, (ast.While, ast.For)) for p in ancestors(par, n, f.node))
+                if ok and in_loop:
+                    def bounded(e, depth=0):
+                        if isinstance(e, ast.Subscript) and isinstance(e.slice, ast.Slice):
+                            return e.slice.upper is not None
+                        if isinstance(e, ast.Name) and depth < 3:
+                            defs = [st.value for st in ast.walk(f.node) if isinstance(st, ast.Assign) and
+                                    any(isinstance(t, ast.Name) and t.id == e.id for t in st.targets)]
+                            slices = [d for d in defs if isinstance(d, ast.Subscript) and isinstance(d.slice, ast.Slice)]
+                            return bool(slices) and all(bounded(d, depth + 1) for d in slices)
+                        return False
+                    sl = [x for x in args if isinstance(x, (ast.Subscript, ast.Name))]
+                    if sl and not any(bounded(x) for x in sl):
+                        ok = False
+                        why = 'called in a loop with an unbounded suffix of the buffer: sibling windows overlap, ' \
+                              'the work doubles with every sibling'
                 key = 'recursion:%s->%s' % (a, c)
                 if any(i.key == key for i in rep.instances):
                     continue
